@@ -900,6 +900,275 @@ theorem C18_live_partial (ra rb : Bool) (ga gb : Option Nat) (ops : List Op) (hw
       ∃ full : List Nat, (l.get y.other).submitted[k]? = some full ∧ b = full.take c) :=
   ⟨never_refused ra rb ga gb ops hw, never_stuck ra rb ga gb ops hw, in_order_once_fresh ra rb ga gb ops hw⟩
 
+/-! ## The connection idle timeout (30 s)
+
+`btp.rs`: `Btp::wait_timeout` polls `Btp::timeout()` = `Session::is_timed_out(now, 30 s)`
+(`send_window.sent_at + 30 s < now`; `sent_at` = instant of our last transmission or of the last
+partial acknowledgement, `Instant::MAX` while nothing is outstanding) every 2 s; when it answers
+`true` the GATT glue ends the session.  Model: `End.timeout`, the operation `TOp.timeout x` of the
+timed link `TMon` (`Lemmas/BtpTimed.lean`): once it has fired the session is closed - the transport
+operations `Poll` / `Deliver` are no longer executed; the applications may still `Send` / `Fetch`.
+
+* Safety is unaffected: `in_order_once_timed`, `window_respected_timed`.
+* Liveness becomes "delivered, or the session is closed by the idle timeout": `C18_live_timed`.
+* When does it fire between two healthy ends?  `timeout_only_in_slack`: under a *timely* schedule
+  (`TimelyFrom`: the clock advances only when nothing travels, nothing waits to be fetched and both
+  pumps have run, and by at most 15 s at a time) it fires ONLY in the `Slack` state: the end counts
+  one segment as unacknowledged that the peer does not hold for acknowledgement - the handshake
+  response, which an rs-matter initiator acknowledges only together with a later segment of the
+  responder - while nothing travels.  In every other state the acknowledgement ping-pong (every
+  stand-alone acknowledgement is a segment that must itself be acknowledged 15 s later) keeps every
+  running idle timer below 30 s.  `idle_close_example`: the Slack case is real (an established link
+  on which the initiator's first message comes later than 15 s after the handshake is closed by the
+  responder 30 s after the handshake); replayed on the real code in `corpus/C18/idle-timeout.txt`. -/
+
+theorem runT_link (tops : List TOp) : ∀ t : TMon, (runT t tops).l = runLink t.l (executed t tops) := by
+  induction tops with
+  | nil => intro t; rfl
+  | cons o os ih =>
+    intro t
+    cases o with
+    | op o =>
+      simp only [runT, executed]
+      by_cases hc : (t.closed && o.isTransport) = true
+      · have hs : t.step (.op o) = t := by simp only [TMon.step, hc, if_true]
+        rw [hs, ih]; simp only [hc, if_true]
+      · simp only [hc, Bool.false_eq_true, if_false]
+        rw [ih, runLink_cons]
+        simp only [TMon.step, hc, Bool.false_eq_true, if_false]
+    | timeout x =>
+      simp only [runT, executed]
+      rw [ih]
+      simp only [TMon.step]
+      split <;> rfl
+
+theorem executed_sub (tops : List TOp) : ∀ t : TMon, ∀ o ∈ executed t tops, TOp.op o ∈ tops := by
+  induction tops with
+  | nil => intro t o h; cases h
+  | cons o' os ih =>
+    intro t o h
+    cases o' with
+    | op o2 =>
+      simp only [executed] at h
+      split at h
+      · exact List.mem_cons_of_mem _ (ih _ o h)
+      · rcases List.mem_cons.mp h with rfl | h
+        · exact List.mem_cons_self
+        · exact List.mem_cons_of_mem _ (ih _ o h)
+    | timeout x =>
+      simp only [executed] at h
+      exact List.mem_cons_of_mem _ (ih _ o h)
+
+def WfTSched (tops : List TOp) : Prop := ∀ o, TOp.op o ∈ tops → WfOp o
+
+theorem executed_wf {tops : List TOp} (hw : WfTSched tops) (t : TMon) : WfSched (executed t tops) :=
+  fun o h => hw o (executed_sub tops t o h)
+
+theorem runT_append (a : List TOp) : ∀ (t : TMon) (b : List TOp), runT t (a ++ b) = runT (runT t a) b := by
+  induction a with
+  | nil => intro t b; rfl
+  | cons o os ih => intro t b; simp only [List.cons_append, runT]; exact ih _ _
+
+theorem step1_tick0 (l : LMon) : l.step1 (.tick 0) = l := rfl
+
+/-- as long as the session is not closed, the timed run is the run of the projected schedule -/
+theorem runT_open (f : Nat → TOp) (t : TMon) :
+    ∀ n, (runT t ((List.range n).map f)).closed = false →
+      (runT t ((List.range n).map f)).l = runF t.l (fun i => (f i).proj) n := by
+  intro n
+  induction n with
+  | zero => intro _; rfl
+  | succ n ih =>
+    intro hc
+    rw [List.range_succ, List.map_append, runT_append] at hc ⊢
+    simp only [List.map_cons, List.map_nil, runT] at hc ⊢
+    -- closed is monotone: the state before was open too
+    have hprev : (runT t ((List.range n).map f)).closed = false := by
+      cases hcl : (runT t ((List.range n).map f)).closed with
+      | false => rfl
+      | true =>
+        exfalso
+        have : ((runT t ((List.range n).map f)).step (f n)).closed = true := by
+          cases f n with
+          | op o => simp only [TMon.step]; split <;> exact hcl
+          | timeout x => simp only [TMon.step]; split <;> first | rfl | exact hcl
+        rw [this] at hc; cases hc
+    have e := ih hprev
+    show ((runT t ((List.range n).map f)).step (f n)).l = (runF t.l (fun i => (f i).proj) n).step1 ((f n).proj)
+    rw [← e]
+    cases hf : f n with
+    | op o =>
+      simp only [TMon.step, hprev, Bool.false_and, Bool.false_eq_true, if_false, TOp.proj]
+    | timeout x =>
+      rw [hf] at hc
+      simp only [TMon.step] at hc ⊢
+      split
+      · rename_i h; simp only [h, if_true] at hc; cases hc
+      · rfl
+
+def freshT (ra rb : Bool) (ga gb : Option Nat) : TMon := { l := freshLink ra rb ga gb }
+
+/-- **Safety with the idle timeout present** (`C18_full` for the timed link): from two fresh ends,
+under every schedule of `Send | Poll | Deliver | Tick | Fetch` and timeout checks at both ends -
+after the timeout of one end has fired the session is closed: the transport operations
+(`Poll`, `Deliver`) are no longer executed, the applications may still `Send` / `Fetch` - what has
+been fetched at one end is a prefix of what was submitted at the other, byte-identical, and the
+windows are respected. ("Exactly once, in order - or the session fails cleanly": a closed session
+delivers nothing that was not submitted and nothing twice.) -/
+theorem in_order_once_timed (ra rb : Bool) (ga gb : Option Nat) (tops : List TOp) (hw : WfTSched tops)
+    (y : Side) (k : Nat) (b : List Nat) (c : Nat)
+    (hk : ((runT (freshT ra rb ga gb) tops).l.get y).fetched[k]? = some (b, c)) :
+    ∃ full, ((runT (freshT ra rb ga gb) tops).l.get y.other).submitted[k]? = some full ∧ b = full.take c := by
+  rw [runT_link] at hk ⊢
+  exact in_order_once_fresh ra rb ga gb _ (executed_wf hw _) y k b c hk
+
+theorem window_respected_timed (ra rb : Bool) (ga gb : Option Nat) (tops : List TOp) (hw : WfTSched tops)
+    (hest : (runT (freshT ra rb ga gb) tops).l.a.e.s.established = true) (x : Side) :
+    let l := (runT (freshT ra rb ga gb) tops).l
+    (l.inq x.other).length ≤ (l.get x.other).e.s.recv.level ∧
+    (l.inq x.other).length + (l.get x.other).e.s.recv.ackLevel ≤
+      (l.get x).e.s.windowSize - (l.get x).e.s.send.level ∧
+    (l.get x).e.s.windowSize - (l.get x).e.s.send.level ≤ (l.get x.other).e.s.windowSize := by
+  rw [runT_link] at hest ⊢
+  exact window_respected ra rb ga gb _ (executed_wf hw _) hest x
+
+/-- **Liveness with the idle timeout present**: from two fresh ends, after any timed schedule
+`tops`, for every message accepted by `send` at `x` and every continuation `f` whose projection
+(timeout checks erased) is fair in the sense of `C18_live`: the message is eventually fetched at the
+other end, **or the session is eventually closed by the idle timeout**.  (Without further
+assumptions on the schedule the second case is real: `idle_close_example`.) -/
+theorem C18_live_timed (ra rb : Bool) (ga gb : Option Nat) (tops : List TOp) (f : Nat → TOp)
+    (hw : WfTSched tops) (hwf : ∀ i, WfOp (f i).proj)
+    (hdel : ∀ y i, ∃ j ≥ i, (f j).proj = .deliver y)
+    (htp : ∀ y i, ∃ j ≥ i, (f j).proj = .tick 15 ∧ (f (j + 1)).proj = .poll y)
+    (hfet : ∀ y i, ∃ j ≥ i, (f j).proj = .fetch y 1232)
+    (x : Side) (k : Nat) (hk : k < ((runT (freshT ra rb ga gb) tops).l.get x).submitted.length) :
+    ∃ n, k < ((runT (freshT ra rb ga gb) (tops ++ (List.range n).map f)).l.get x.other).fetched.length ∨
+      (runT (freshT ra rb ga gb) (tops ++ (List.range n).map f)).closed = true := by
+  by_cases hc : ∃ n, (runT (freshT ra rb ga gb) (tops ++ (List.range n).map f)).closed = true
+  · obtain ⟨n, hn⟩ := hc
+    exact ⟨n, .inr hn⟩
+  · have hopen : ∀ n, (runT (runT (freshT ra rb ga gb) tops) ((List.range n).map f)).closed = false := by
+      intro n
+      cases h : (runT (runT (freshT ra rb ga gb) tops) ((List.range n).map f)).closed with
+      | false => rfl
+      | true => exact absurd ⟨n, by rw [runT_append]; exact h⟩ hc
+    have hlive := C18_live_holds ra rb ga gb (executed (freshT ra rb ga gb) tops) (fun i => (f i).proj)
+      (executed_wf hw _) hwf hdel htp hfet x k (by rw [runT_link] at hk; exact hk)
+    obtain ⟨n, hn⟩ := hlive
+    refine ⟨n, .inl ?_⟩
+    rw [runT_append, runT_open f _ n (hopen n), runT_link]
+    rw [runLink_append, runLink_range] at hn
+    exact hn
+
+
+/-- **`timed_run`**: along every timely schedule from a synchronised state satisfying the time-stamp
+invariant (window ≥ 2), the invariants are preserved. -/
+theorem timed_run {W M : Nat} (hw2 : 2 ≤ W) (ops : List Op) : ∀ (l : LMon), Timed W M l → WfSched ops →
+    TimelyFrom l ops → Timed W M (runLink l ops) := by
+  induction ops with
+  | nil => intro l h _ _; exact h
+  | cons op ops ih =>
+    intro l h hw ht
+    rw [runLink_cons]
+    exact ih _ (timed_step1 h hw2 (hw op List.mem_cons_self) ht.1)
+      (fun o ho => hw o (List.mem_cons_of_mem _ ho)) ht.2
+
+/-- **`timeout_only_in_slack`**: in every state reached by a timely schedule from such a state, the
+idle timeout of an end `x` (`Btp::timeout()`) can answer `true` only in the `Slack` state of the
+direction `x → peer` (see the section header).  In particular it never fires at an end all of whose
+unacknowledged segments are held by the peer for acknowledgement, however long the link is idle:
+the peer's 15 s acknowledgement timer fires first. -/
+theorem timeout_only_in_slack {W M : Nat} (hw2 : 2 ≤ W) (l0 : LMon) (h0 : Timed W M l0) (ops : List Op)
+    (hw : WfSched ops) (ht : TimelyFrom l0 ops) (x : Side)
+    (hto : ((runLink l0 ops).get x).e.timeout (runLink l0 ops).now = true) : Slack W (runLink l0 ops) x :=
+  timeout_slack (timed_run hw2 ops l0 h0 hw ht) x hto
+
+/-- Non-vacuity of `Timed`: the state right after an (instantaneous) handshake between two fresh
+ends, window 79, segment size 20. -/
+theorem timed_after_handshake : Timed 79 20 (runLink (freshLink false false none none) handshakeOps) := by
+  have hwf : WfSched handshakeOps := by
+    intro op h; simp [handshakeOps] at h
+    rcases h with rfl | rfl | rfl | rfl <;> trivial
+  obtain ⟨hl, hp⟩ := phase_run false false none none handshakeOps hwf
+  have hest : (runLink (freshLink false false none none) handshakeOps).a.e.s.established = true := by decide
+  have hsync : Sync 79 20 (runLink (freshLink false false none none) handshakeOps) := by
+    cases hp with
+    | p0 _ sa => rw [sa] at hest; cases hest
+    | p1 _ sa => rw [sa] at hest; cases hest
+    | p2 _ sa => rw [sa] at hest; cases hest
+    | p3 _ h => rw [h.sa] at hest; cases hest
+    | sync h => exact h
+  refine ⟨hl, hsync, fun x => ?_⟩
+  cases x
+  · refine ⟨by decide, ?_, ?_, ?_, ?_⟩
+    · intro r hr
+      have : ((runLink (freshLink false false none none) handshakeOps).get .a).e.s.recv.receivedAt = none := by decide
+      rw [this] at hr; cases hr
+    · intro hne; exact absurd (by decide) hne
+    · intro hal; exact absurd hal (by decide)
+    · intro s hs
+      have : ((runLink (freshLink false false none none) handshakeOps).get .a).e.s.send.sentAt = none := by decide
+      rw [this] at hs; cases hs
+  · refine ⟨by decide, ?_, ?_, ?_, ?_⟩
+    · intro r hr
+      have : ((runLink (freshLink false false none none) handshakeOps).get .b).e.s.recv.receivedAt = none := by decide
+      rw [this] at hr; cases hr
+    · intro hne; exact absurd (by decide) hne
+    · intro hal; exact absurd hal (by decide)
+    · intro s hs
+      have : ((runLink (freshLink false false none none) handshakeOps).get .b).e.s.send.sentAt = some 0 := by decide
+      rw [this] at hs
+      left
+      have := Option.some.inj hs
+      have hn : (runLink (freshLink false false none none) handshakeOps).now = 0 := by decide
+      rw [hn]; omega
+
+/-- a timely schedule after the handshake: one message `a → b`, then three rounds of the
+acknowledgement ping-pong, the clock advancing by 15 s only when everything has settled -/
+def pingPongOps : List Op :=
+  [.send .a [1, 2, 3], .poll .a, .deliver .b, .fetch .b 100, .poll .b, .poll .a,
+   .tick 15, .poll .b, .deliver .a, .poll .a, .poll .b,
+   .tick 15, .poll .a, .deliver .b, .poll .b, .poll .a,
+   .tick 15, .poll .b, .deliver .a, .poll .a, .poll .b,
+   .tick 14, .poll .a, .poll .b]
+
+/-- Non-vacuity of `TimelyFrom` / `timeout_only_in_slack`: `pingPongOps` is timely; the clock reaches
+59 s, three stand-alone acknowledgements have crossed, `b`'s idle timer (last restarted at 45 s) runs,
+and neither timeout fires. -/
+example :
+    TimelyFrom (runLink (freshLink false false none none) handshakeOps) pingPongOps ∧
+    (runLink (freshLink false false none none) (handshakeOps ++ pingPongOps)).now = 59 ∧
+    (runLink (freshLink false false none none) (handshakeOps ++ pingPongOps)).b.fetched = [([1, 2, 3], 100)] ∧
+    (runLink (freshLink false false none none) (handshakeOps ++ pingPongOps)).b.e.s.send.sentAt = some 45 ∧
+    (runLink (freshLink false false none none) (handshakeOps ++ pingPongOps)).a.e.timeout 59 = false ∧
+    (runLink (freshLink false false none none) (handshakeOps ++ pingPongOps)).b.e.timeout 59 = false :=
+  ⟨timely_of_B _ _ (by decide), by decide, by decide, by decide, by decide, by decide⟩
+
+def idleOps1 : List Op :=
+  [.tick 15, .tick 5, .send .a [1, 2, 3], .poll .a, .deliver .b, .fetch .b 100, .poll .b, .poll .a, .tick 11]
+
+def idleOps2 : List Op :=
+  [.send .a [4, 5], .poll .a, .deliver .b, .tick 15, .poll .b, .deliver .a, .fetch .b 100]
+
+/-- handshake (4 operations), `idleOps1` (9), the timeout tasks of both ends (`b`'s fires), `idleOps2` -/
+def idleCloseTops : List TOp :=
+  (handshakeOps ++ idleOps1).map TOp.op ++ [.timeout .a, .timeout .b] ++ idleOps2.map TOp.op
+
+/-- **`idle_close_example`** (the `Slack` case is real): after the handshake nothing happens for
+20 s; then `a` submits a message, it is delivered and fetched at `b` (time 20: `b`'s
+acknowledgement is due at 35); at time 31 `b`'s idle timeout fires - its handshake response (sent at
+time 0) is still unacknowledged, because an rs-matter initiator acknowledges it only together with a
+later segment of the responder - and the session is closed although both ends are alive; a second
+message submitted at `a` is accepted by `send` and never delivered.  The schedule is timely. -/
+theorem idle_close_example :
+    (runT (freshT false false none none) idleCloseTops).closed = true ∧
+    (runT (freshT false false none none) idleCloseTops).l.b.fetched = [([1, 2, 3], 100)] ∧
+    (runT (freshT false false none none) idleCloseTops).l.a.submitted = [[1, 2, 3], [4, 5]] ∧
+    (runT (freshT false false none none) (idleCloseTops.take 14)).closed = false ∧
+    TimelyFrom (runLink (freshLink false false none none) handshakeOps) idleOps1 :=
+  ⟨by decide, by decide, by decide, by decide, timely_of_B _ _ (by decide)⟩
+
 /-! ## The ring buffer: the real index arithmetic refines the byte queue of the session model -/
 
 /-- **`RingBuf<N>` (model of the real `start` / `end` / `non_empty` arithmetic of
